@@ -650,6 +650,7 @@ class SparseArray:
         return SparseArray(rows)
     
     def copy_like(self, other):
+        if self.read_only: raise ValueError('assignment destination is read-only')
         rows = self.rows
         for i, j in zip(rows, other.rows):
             i.copy_like(j)
@@ -728,6 +729,7 @@ class SparseArray:
         return False
     
     def remove_negatives(self):
+        if self.read_only: raise ValueError('assignment destination is read-only')
         for i in self.rows: i.remove_negatives()
     
     def shares_data_with(self, other):
